@@ -216,6 +216,21 @@ func ruleWorkerLoops(c *Ctx) {
 					if b, isB := x.Call.Value.(*ssa.Builtin); isB && (b.Name() == "len" || b.Name() == "cap") {
 						return ok(x.Call.Args[0], d+1)
 					}
+					// a phase helper reporting on the queue: every returned value is itself such a condition
+					if sf := x.Call.StaticCallee(); sf != nil && sf.Pkg == fn.Pkg && sf.Object() != nil && !sf.Object().Exported() && len(sf.Blocks) > 0 {
+						nret := 0
+						for _, in := range instrsOf(sf) {
+							if r, isR := in.(*ssa.Return); isR {
+								for _, rv := range r.Results {
+									nret++
+									if !ok(rv, d+1) {
+										return false
+									}
+								}
+							}
+						}
+						return nret > 0
+					}
 					return false
 				case *ssa.Extract: // v, ok := <-ch ; range over channel
 					return true
@@ -226,14 +241,32 @@ func ruleWorkerLoops(c *Ctx) {
 		}
 		n := 0
 		bad := ""
-		for _, in := range instrsOf(fn) {
-			i, isIf := in.(*ssa.If)
-			if !isIf {
+		// the worker and the phase helpers it is split into (those that touch the queue)
+		scope := []*ssa.Function{fn}
+		for _, h := range p.withHelpers(fn) {
+			if h == fn || h.Parent() != nil {
 				continue
 			}
-			n++
-			if !okCond(i.Cond) {
-				bad = "condition @" + p.InstrPos(i) + " depends on something other than the queue itself"
+			touches := false
+			for _, in := range instrsOf(h) {
+				if fa, isFA := in.(*ssa.FieldAddr); isFA && qf[fieldOfAddr(fa)] {
+					touches = true
+				}
+			}
+			if touches {
+				scope = append(scope, h)
+			}
+		}
+		for _, g := range scope {
+			for _, in := range instrsOf(g) {
+				i, isIf := in.(*ssa.If)
+				if !isIf {
+					continue
+				}
+				n++
+				if !okCond(i.Cond) {
+					bad = "condition @" + p.InstrPos(i) + " depends on something other than the queue itself"
+				}
 			}
 		}
 		c.inst(1)
@@ -394,7 +427,6 @@ func ruleGCCountdown(c *Ctx) {
 	c.check(bad == "", fnName(v), "indirect and indirectsent are discounted together on every path of the count-down", p.Pos(v.Pos()), fmt.Sprintf("%d paths", len(tr.Paths)), bad)
 	_ = strings.Join
 }
-
 
 // withHelpers returns fn, its closures and, transitively, the unexported
 // functions of its package that it calls statically (extracted helpers).
